@@ -1,7 +1,10 @@
 from .csvcommon import *
 ID = "C13"
-FUNCTIONS = CSV_FUNCS
+# CSVStorage methods against the I/O effect model (write-side faults), plus the database-level read-fault clauses:
+# every loop over a storage and Index.build's iteration have an exceptional edge 'ReadFault' at an arbitrary row
+FUNCTIONS = CSV_FUNCS + [IX + "build"] + [TF + f for f in ("reindex", "count", "contains", "_remove_helper", "remove", "_update_helper", "update", "_insert_helper")]
 ASSUMED = []
 STANDIN = "standins/csvio.py"
-TRUSTED = IO_TRUSTED
+TRUSTED = IO_TRUSTED + [STORAGE_ASSUMED, QUERY_ASSUMED,
+                        "read faults at the database level are modelled as an exception ('ReadFault') that iterating a storage may raise at any row, before the row is yielded; CSVStorage.__iter__ itself (seek, csv.reader, fromisoformat of undecodable rows) is not under contract"]
 ASSUMPTIONS = ["A-single: one process, one TinyFlux object per file", "A-buf: one csv row fits the text/binary buffers, so bytes reach the disk only at flush/seek/close"]
